@@ -28,7 +28,7 @@ from ref import nesting as N
 
 PROPERTY = "C18"
 LEVEL = "exploration"
-STEP_UNIT = "line events inside jsonpath_rfc9535 (sys.settrace step clock)"
+STEP_UNIT = "line events inside jsonpath_rfc9535 (sys.monitoring step clock)"
 RULE = (
     "run = one (limit L, mode, value shape, query, choice stream) scenario evaluated with find() under the step clock; "
     "shapes: container chains with nesting L-2..L+3 (object/array mixes, deep branch first/middle/last among shallow "
@@ -46,7 +46,7 @@ ASSUMPTIONS = [
 ]
 COMPONENTS = {
     "real": ["lexer", "parser", "descendant segment (both walks)", "selectors", "environment limit"],
-    "stub": ["random.choice/sample/shuffle/... (SimRandom)", "clock: sys.settrace line counter"],
+    "stub": ["random.choice/sample/shuffle/... (SimRandom)", "clock: sys.monitoring line counter"],
 }
 
 _ENVS: Dict[Tuple[int, bool], jp.JSONPathEnvironment] = {}
